@@ -33,7 +33,7 @@ BigCodes == { 128512, 55296, 57343, 1114111, 1114112 }   \* as Singles
 IntArgs == { -32768, -32767, -256, -1, 0, 1, 9, 10, 15, 16, 255, 256, 4095, 32767 }
 ValTexts == { <<49, 50, 65, 66>>, <<32, 45, 51, 46, 53, 69, 49, 88>>, <<38, 72, 49, 70>>, <<>>, <<69>>, <<49, 68, 50>>,
               <<38, 49, 55>>, <<46, 53>>, <<45>>, <<49, 46>>, <<50, 53, 54>>, <<32, 55, 32>>, <<49, 69, 45, 50>>,
-              <<51, 50, 55, 54, 56>>, <<65, 49>>, <<38, 72>>, <<49, 50, 51, 52, 53, 54, 55>>, <<48, 46, 49, 50, 53>> }
+              <<51, 50, 55, 54, 56>>, <<65, 49>>, <<38, 72>>, <<38, 72, 68>>, <<38, 104, 49, 100>>, <<38, 72, 68, 69>>, <<49, 50, 51, 52, 53, 54, 55>>, <<48, 46, 49, 50, 53>> }
 StrNums == { MkI(0), MkI(5), MkI(-12), MkI(32767), MkI(-32768), MkF("S", 5, 1), MkF("S", -3, 2), MkF("D", 1, 3), MkF("S", 1234567, 0) }
 
 Cases ==
